@@ -140,6 +140,26 @@ void h_fwd_symbol(void)
     __CPROVER_assert(g_file_printed == in_file && g_line_printed == in_line && g_prefix_errnum == in_errnum, "C20 ERRORreport_with_symbol attributes the diagnostic to the symbol's file and line");
 }
 
+/* must-fail canary (vacuity guard) for the forwarding harnesses: under the same assumed module state the reporter returns having formatted a
+ * message, so the claim that no message is ever formatted has to be refuted */
+void h_canary_fwd_symbol_reachable(void)
+{
+    IN(int, in_errnum);
+    IN_BOOL(in_buffer);
+    IN(long, in_off);
+    IN(int, in_lines);
+    IN(int, in_line);
+    IN_ARR(char, in_a1, 4);
+    IN_ARR(char, in_a2, 4);
+    IN_ARR(char, in_file, 6);
+    fwd_state(in_errnum, in_buffer, in_off, in_lines);
+    in_a1[3] = in_a2[3] = 0; in_file[5] = 0;
+    Symbol sym;
+    sym.name = 0; sym.filename = in_file; sym.line = in_line; sym.resolved = 0;
+    ERRORreport_with_symbol((enum ErrorCode)in_errnum, &sym, in_a1, in_a2);
+    __CPROVER_assert(g_fmt_last == 0, "canary: ERRORreport_with_symbol never formats a message (must be refuted)");
+}
+
 void h_fwd_line(void)
 {
     IN(int, in_errnum);
